@@ -4,6 +4,6 @@ cd /verif
 ids=$(ls seeded | grep -E '^C[0-9]+[a-z]$')
 lane() { for id in "$@"; do python3 tools/seedtest.py seeded/$id --all > seeded/$id/result.json 2> /tmp/mut/$id.err; echo "$id done"; done; }
 mkdir -p /tmp/mut
-a=(); b=(); c=(); d=(); i=0
-for id in $ids; do case $((i%4)) in 0) a+=($id);; 1) b+=($id);; 2) c+=($id);; 3) d+=($id);; esac; i=$((i+1)); done
-lane "${a[@]}" & lane "${b[@]}" & lane "${c[@]}" & lane "${d[@]}" & wait
+a=(); b=(); c=(); d=(); e=(); f=(); i=0
+for id in $ids; do case $((i%6)) in 0) a+=($id);; 1) b+=($id);; 2) c+=($id);; 3) d+=($id);; 4) e+=($id);; 5) f+=($id);; esac; i=$((i+1)); done
+lane "${a[@]}" & lane "${b[@]}" & lane "${c[@]}" & lane "${d[@]}" & lane "${e[@]}" & lane "${f[@]}" & wait
